@@ -14,6 +14,7 @@ import (
 	"os"
 	"os/exec"
 	"path/filepath"
+	"sort"
 	"strings"
 	"sync"
 	"sync/atomic"
@@ -317,8 +318,17 @@ func runProbe() {
 	step("media", func() { d.Keys("o") })
 	step("history", func() { d.Keys("hhhll") })
 	step("creator", func() { d.Keys("cp") })
-	step("feed", func() { d.Keys(":feed f\r") })
-	step("feed-move", func() { d.Keys("jjjjjjjjk ") })
+	// every feed the configuration declares (and one it does not) is opened and browsed
+	var feedNames []string
+	for name := range config.Parsed.Feeds {
+		feedNames = append(feedNames, name)
+	}
+	sort.Strings(feedNames)
+	for _, name := range append(feedNames, "f", "no-such-feed") {
+		name := name
+		step("feed "+name, func() { d.Keys(":feed " + name + "\r") })
+		step("feed-move "+name, func() { d.Keys("jjjjjjjjk hl") })
+	}
 	step("resize", func() { d.Resize(9, 3); d.Keys("jk") })
 	fmt.Println("PROBE-OK")
 }
@@ -356,7 +366,7 @@ func main() {
 	r := ev.New("C19", "exploration",
 		"(i) every string '#'+6 hex digits (quick: lower case, 16^6; thorough: both cases, 22^6) and every string of length <=7 over {#,0,f,F,g,+,-,space,x,_,é} through the real colour converter, against the arithmetic value; "+
 			"(ii) TOML files over the documented keys: full product of hook(7) x cache_size(7) x preload_amount(8) x timeout_seconds(8) x feeds(5) with typical colours, full product of the four colours (6^4), and every single and pairwise combination with unknown keys/tables and a syntax error, "+
-			"through the real parser against a reference acceptance predicate (reject / accept / range-checked either way); (iii) every accepted configuration of (ii)'s first product with at most two keys set (all singles and all pairs) starts a probe process driving the real UI (open, move, select, follow and open links, history, creators, feed, resize); "+
+			"through the real parser against a reference acceptance predicate (reject / accept / range-checked either way); (iii) every accepted configuration of (ii)'s first product with at most two keys set (all singles and all pairs) starts a probe process driving the real UI (open, move, select, follow and open links, history, creators, every configured feed and an unknown one, resize); "+
 			"distinct_nontrivial = configuration files that deviate from the defaults")
 	dir, _ := os.MkdirTemp(os.Getenv("VERIF_SCRATCH"), "c19")
 	defer os.RemoveAll(dir)
